@@ -321,7 +321,7 @@ fn completeness_case(ctx: &mut Ctx, g: &Gram) -> Result<(), Fail> {
     }
 }
 
-fn raw_grammar_strategy(max_rules: usize, with_ws: bool) -> BoxedStrategy<Gram> {
+fn raw_grammar_strategy(max_rules: usize, with_ws: bool, shadow: bool) -> BoxedStrategy<Gram> {
     // unrepaired, stack-free, recursion-heavy
     let cfg = GenCfg { extras: false, stack_ops: false, max_rules, ws_prob: 0.4, allow_shadow: false, depth: 3 };
     let e = expr_strategy(&cfg);
@@ -330,11 +330,18 @@ fn raw_grammar_strategy(max_rules: usize, with_ws: bool) -> BoxedStrategy<Gram> 
         proptest::collection::vec((ty.clone(), e.clone()), 1..=max_rules),
         opt_weighted(if with_ws { 0.4 } else { 0.0 }, (ty.clone(), e.clone())),
         opt_weighted(if with_ws { 0.25 } else { 0.0 }, (ty, e)),
+        // a user rule named like a (non-keyword) built-in: the user's definition is the one that runs, so the
+        // analyses must look at its body, not at the built-in's reputation
+        opt_weighted(if shadow { 0.25 } else { 0.0 }, (0..SHADOW_NAMES.len(), any::<u8>())),
     )
-        .prop_map(|(rules, ws, cm)| {
+        .prop_map(|(rules, ws, cm, shadow)| {
             let mut g = Gram { rules: vec![] };
             for (i, (ty, expr)) in rules.into_iter().enumerate() {
                 g.rules.push(GRule { name: format!("r{i}"), ty, expr });
+            }
+            if let Some((k, which)) = shadow {
+                let idx = (which as usize) % g.rules.len();
+                g.rules[idx].name = SHADOW_NAMES[k].to_string();
             }
             if let Some((ty, expr)) = ws {
                 g.rules.push(GRule { name: "WHITESPACE".into(), ty, expr });
@@ -370,14 +377,14 @@ fn raw_grammar_strategy(max_rules: usize, with_ws: bool) -> BoxedStrategy<Gram> 
 pub fn run(ctx: &mut Ctx) {
     // soundness: raw grammars (most are rejected; the accepted ones are the domain)
     let n = ctx.share(ctx.tier.pick(400_000, 12_000_000));
-    let strat = (raw_grammar_strategy(3, true), proptest::collection::vec(spec_strategy(), 3));
+    let strat = (raw_grammar_strategy(3, true, true), proptest::collection::vec(spec_strategy(), 3));
     ctx.run_prop(n, 1, strat, |ctx, (g, specs)| soundness_case(ctx, g, specs));
     // soundness, second stream: one or two tiny rules (densest source of accepted recursive grammars)
-    let strat2 = (raw_grammar_strategy(2, false), proptest::collection::vec(spec_strategy(), 2));
+    let strat2 = (raw_grammar_strategy(2, false, true), proptest::collection::vec(spec_strategy(), 2));
     ctx.run_prop(n, 3, strat2, |ctx, (g, specs)| soundness_case(ctx, g, specs));
     // completeness
     let m = ctx.share(ctx.tier.pick(200_000, 4_000_000));
-    let strat3 = (raw_grammar_strategy(4, true), proptest::collection::vec(leading_terminal(), 1..6)).prop_map(|(mut g, terms)| {
+    let strat3 = (raw_grammar_strategy(4, true, false), proptest::collection::vec(leading_terminal(), 1..6)).prop_map(|(mut g, terms)| {
         make_well_formed(&mut g, &terms);
         g
     });
@@ -416,7 +423,7 @@ pub fn replay(case: &Value) -> Result<(), Fail> {
 
 pub const DEF: CheckDef = CheckDef {
     id: "C06",
-    rule: "Soundness: UNREPAIRED proptest grammars without stack built-ins (1-3 rules + optional WHITESPACE/COMMENT with arbitrary bodies, rule references weighted high so that recursion appears under every operator) - for each grammar pest_meta ACCEPTS, every rule x (all strings of length <= 3 over up to 4 symbols of its alphabet + sampled derivations) is evaluated by the reference evaluator over the OPTIMIZED rules; the oracle is that it never proves divergence (re-entry of an active (rule, position, atomicity) or a repetition iteration consuming nothing - exact for stack-free grammars); a divergence verdict is then demonstrated on the real VM in a child process (stack overflow or 3M combinator calls) before it is reported. Completeness: raw grammars rewritten so that every repetition body, non-final alternative, WHITESPACE/COMMENT body and rule body starts with a non-empty literal, range or single-character built-in must be accepted by parse_and_optimize. Non-trivial = accepted grammar with a reference cycle (soundness) / grammar with a cycle and a repetition (completeness); distinct = distinct grammar text.",
+    rule: "Soundness: UNREPAIRED proptest grammars without stack built-ins (1-3 rules + optional WHITESPACE/COMMENT with arbitrary bodies, rule references weighted high so that recursion appears under every operator; in a quarter of them one rule is named like a built-in - ASCII_DIGIT, NEWLINE, LETTER) - for each grammar pest_meta ACCEPTS, every rule x (all strings of length <= 3 over up to 4 symbols of its alphabet + sampled derivations) is evaluated by the reference evaluator over the OPTIMIZED rules; the oracle is that it never proves divergence (re-entry of an active (rule, position, atomicity) or a repetition iteration consuming nothing - exact for stack-free grammars); a divergence verdict is then demonstrated on the real VM in a child process (stack overflow or 3M combinator calls) before it is reported. Completeness: raw grammars rewritten so that every repetition body, non-final alternative, WHITESPACE/COMMENT body and rule body starts with a non-empty literal, range or single-character built-in must be accepted by parse_and_optimize. Non-trivial = accepted grammar with a reference cycle (soundness) / grammar with a cycle and a repetition (completeness); distinct = distinct grammar text.",
     assumptions: &[
         "termination is decided by exact recurrence detection in the model (no timeouts); the child-process demonstration uses a 3,000,000-call limit only to confirm an endless iteration the model already proved",
         "default feature configuration only (grammar-extras adds tag-specific validation errors unrelated to the statement)",
